@@ -15,7 +15,10 @@ package main
 //	Corpus.PermanodeAnyTime / PermanodeTime under Index.RLock,
 //	Handler.Query with a time constraint (every permanode's time is computed),
 //	Handler.Query sorted by creation time ascending (sort.Sort over PermanodeAnyTime) and
-//	descending (the lazily sorted listing).
+//	descending (the lazily sorted listing),
+//
+// and, once every new permanode was asked about, also through Describe, GetRecentPermanodes,
+// GetClaims and Corpus.PermanodeAttrValue.
 //
 // While a wave's readers run they touch no harness lock, atomic or channel: between two readers
 // there is no happens-before edge but what perkeep itself creates, so ANY write by a reader to
@@ -26,7 +29,9 @@ package main
 // the delivered claims define: a content permanode's time is the date of its newest camliContent
 // set-attribute claim (it has no date attributes, its content is not an indexed file); a time
 // query for [t, t+1s) returns exactly the permanode whose time is t; the sorted queries return
-// all delivered content permanodes in time order.
+// all delivered content permanodes in time order; Describe / PermanodeAttrValue / GetClaims /
+// GetRecentPermanodes give the newest camliContent value, the delivered claims, each delivered
+// content permanode once with its newest claim's date.
 
 import (
 	"context"
@@ -57,6 +62,9 @@ type contentPn struct {
 	pn     sto.Blob
 	claims []sto.Blob // in date order
 	when   time.Time  // the time every query must give the permanode
+	mod    time.Time  // date of the newest claim
+	value  string     // value of the newest camliContent claim
+	cc     []sto.Blob // the camliContent claims, in date order
 }
 
 // buildContent adds the content permanodes to w (called once per world, under ixWorldMu).
@@ -68,16 +76,21 @@ func buildContent(w *ixWorld) {
 			return blob.RefFromString(fmt.Sprintf("c14 content of permanode %d (%s): no such blob is ever delivered", i, tag)).String()
 		}
 		c.claims = append(c.claims, w.signer.Claim(hw.Set, pn.Ref, "title", contentTitle, hw.T(2010, 100+i)))
-		c.when = hw.T(2011, 100+10*i)
-		c.claims = append(c.claims, w.signer.Claim(hw.Set, pn.Ref, "camliContent", fresh("a"), c.when))
+		c.when, c.value = hw.T(2011, 100+10*i), fresh("a")
+		c.cc = append(c.cc, w.signer.Claim(hw.Set, pn.Ref, "camliContent", c.value, c.when))
+		c.claims = append(c.claims, c.cc[0])
+		c.mod = c.when
 		switch i % 4 {
 		case 0:
 			// the content is replaced later: the newer claim's date counts
-			c.when = hw.T(2011, 100+10*i+5)
-			c.claims = append(c.claims, w.signer.Claim(hw.Set, pn.Ref, "camliContent", fresh("b"), c.when))
+			c.when, c.value = hw.T(2011, 100+10*i+5), fresh("b")
+			c.cc = append(c.cc, w.signer.Claim(hw.Set, pn.Ref, "camliContent", c.value, c.when))
+			c.claims = append(c.claims, c.cc[1])
+			c.mod = c.when
 		case 1:
 			// a later claim on another attribute: the modification time is not the content's time
-			c.claims = append(c.claims, w.signer.Claim(hw.Set, pn.Ref, "description", fmt.Sprintf("described-%d", i), hw.T(2012, 100+i)))
+			c.mod = hw.T(2012, 100+i)
+			c.claims = append(c.claims, w.signer.Claim(hw.Set, pn.Ref, "description", fmt.Sprintf("described-%d", i), c.mod))
 		}
 		w.content = append(w.content, c)
 	}
@@ -90,6 +103,8 @@ type contentObs struct {
 	t     time.Time
 	ok    bool
 	refs  []blob.Ref
+	s     string   // Describe / PermanodeAttrValue: what was found
+	bad   []string // malformed answer
 	err   error
 	upTo  int // content permanodes delivered when the wave started
 	start time.Time
@@ -144,7 +159,7 @@ func runIndexContent(x *hw.Idx, sh *search.Handler, w *ixWorld, job jobSpec, rep
 				for n, i := range order {
 					op := rrng.Intn(3)
 					if n >= hi-lo {
-						op = rrng.Intn(5)
+						op = rrng.Intn(9)
 					}
 					if n == ascAt {
 						op = 3
@@ -172,6 +187,42 @@ func runIndexContent(x *hw.Idx, sh *search.Handler, w *ixWorld, job jobSpec, rep
 								o.refs = append(o.refs, b.Blob)
 							}
 						}
+					case 5:
+						o.op = "content-Describe"
+						var dr *search.DescribeResponse
+						if dr, o.err = sh.Describe(ctx, &search.DescribeRequest{BlobRef: c.pn.Ref}); o.err == nil {
+							if db := dr.Meta.Get(c.pn.Ref); db != nil && db.Permanode != nil {
+								o.s = fmt.Sprintf("title=%q camliContent=%q", db.Permanode.Attr["title"], db.Permanode.Attr["camliContent"])
+							} else {
+								o.s = "not described as a permanode"
+							}
+						}
+					case 6:
+						o.op, o.i = "content-GetRecentPermanodes", -1
+						var rr *search.RecentResponse
+						if rr, o.err = sh.GetRecentPermanodes(ctx, &search.RecentRequest{N: 1000}); o.err == nil {
+							for _, it := range rr.Recent {
+								if k, ok := byRef[it.BlobRef]; ok {
+									o.refs = append(o.refs, it.BlobRef)
+									if !it.ModTime.Time().Equal(w.content[k].mod) {
+										o.bad = append(o.bad, fmt.Sprintf("content permanode %d has modtime %v, its newest claim is dated %v", k, it.ModTime.Time().UTC(), w.content[k].mod.UTC()))
+									}
+								}
+							}
+						}
+					case 7:
+						o.op = "content-GetClaims"
+						var cr *search.ClaimsResponse
+						if cr, o.err = sh.GetClaims(&search.ClaimsRequest{Permanode: c.pn.Ref, AttrFilter: "camliContent"}); o.err == nil {
+							for _, cl := range cr.Claims {
+								o.refs = append(o.refs, cl.BlobRef)
+							}
+						}
+					case 8:
+						o.op = "content-PermanodeAttrValue"
+						x.Index.RLock()
+						o.s = x.Corpus.PermanodeAttrValue(c.pn.Ref, "camliContent", time.Time{}, "")
+						x.Index.RUnlock()
 					default:
 						o.op, o.i = "content-Query-created-asc", -1
 						srt := search.CreatedAsc
@@ -226,6 +277,48 @@ func runIndexContent(x *hw.Idx, sh *search.Handler, w *ixWorld, job jobSpec, rep
 						report("content-time/index+corpus/Query-time",
 							fmt.Sprintf("search Query(permanode time in [%v, +1s)) on the quiet index returned %v; exactly content permanode %d (%v) has its time there", w.content[o.i].when.UTC(), shortBlobRefs(o.refs), o.i, short(w.content[o.i].pn.Ref)),
 							map[string]any{"content": o.i, "readers": readers, "wave": wave})
+					}
+				case "content-Describe":
+					c := &w.content[o.i]
+					if want := fmt.Sprintf("title=%q camliContent=%q", []string{contentTitle}, []string{c.value}); o.s != want {
+						report("content-answer/index+corpus/Describe", fmt.Sprintf("Describe(content permanode %d) on the quiet index: %s; its claims say %s", o.i, o.s, want), map[string]any{"content": o.i, "readers": readers, "wave": wave})
+					}
+				case "content-PermanodeAttrValue":
+					if c := &w.content[o.i]; o.s != c.value {
+						report("content-answer/index+corpus/PermanodeAttrValue", fmt.Sprintf("PermanodeAttrValue(content permanode %d, camliContent) = %q on the quiet index; its newest camliContent claim says %q", o.i, o.s, c.value), map[string]any{"content": o.i, "readers": readers, "wave": wave})
+					}
+				case "content-GetClaims":
+					c := &w.content[o.i]
+					okc := len(o.refs) == len(c.cc)
+					for k := 0; okc && k < len(c.cc); k++ {
+						okc = o.refs[k] == c.cc[k].Ref
+					}
+					if !okc {
+						var want []blob.Ref
+						for _, b := range c.cc {
+							want = append(want, b.Ref)
+						}
+						report("content-answer/index+corpus/GetClaims", fmt.Sprintf("GetClaims(content permanode %d, camliContent) = %v on the quiet index; delivered were %v", o.i, shortBlobRefs(o.refs), shortBlobRefs(want)), map[string]any{"content": o.i, "readers": readers, "wave": wave})
+					}
+				case "content-GetRecentPermanodes":
+					seen := map[blob.Ref]int{}
+					for _, r := range o.refs {
+						seen[r]++
+					}
+					bad := o.bad
+					for i := 0; i < o.upTo; i++ {
+						if n := seen[w.content[i].pn.Ref]; n != 1 {
+							bad = append(bad, fmt.Sprintf("content permanode %d is listed %d times", i, n))
+						}
+					}
+					if len(seen) > o.upTo {
+						bad = append(bad, fmt.Sprintf("%d content permanodes are listed, %d were delivered", len(seen), o.upTo))
+					}
+					if len(bad) > 0 {
+						if len(bad) > 4 {
+							bad = bad[:4]
+						}
+						report("content-answer/index+corpus/GetRecentPermanodes", "GetRecentPermanodes on the quiet index: "+strings.Join(bad, "; "), map[string]any{"readers": readers, "wave": wave})
 					}
 				default:
 					var want []int
